@@ -2,6 +2,10 @@ import Sourcer.Proofs.Refine
 import Sourcer.Proofs.Bounds
 import Sourcer.Proofs.PrepareProofs
 import Sourcer.Proofs.RunProofs
+import Sourcer.Proofs.Positions
+import Sourcer.Proofs.Spans
+import Sourcer.Proofs.Bounded
+import Sourcer.Api
 /-
   Property theorems (statements only; proofs are one-liners over Sourcer/Proofs/*).
   Every theorem is followed by an `example` showing its hypotheses are met by a concrete,
@@ -392,5 +396,159 @@ example : (steps exBody 10 (init exBody 0)).starts = [1, 0] := by rfl
 example : (steps exBody 10 (init exBody 0)).pending = some 10 := by rfl
 
 end C07
+
+/-! ## C08 – exactly three outcomes, fixed by the entry rule's match -/
+
+mutual
+theorem finalize_of_spansLe (len : Nat) : ∀ v : Val, spansLe len v = true → ∃ v', finalize len v = some v'
+  | .none, _ => ⟨_, rfl⟩
+  | .bool _, _ => ⟨_, rfl⟩
+  | .int _, _ => ⟨_, rfl⟩
+  | .str _, _ => ⟨_, rfl⟩
+  | .bytes _, _ => ⟨_, rfl⟩
+  | .err, _ => ⟨_, rfl⟩
+  | .list xs, h => by
+    obtain ⟨xs', hx⟩ := finalizeList_of_spansLe len xs (by simpa [spansLe] using h)
+    exact ⟨.list xs', by simp [finalize, hx]⟩
+  | .tuple xs, h => by
+    obtain ⟨xs', hx⟩ := finalizeList_of_spansLe len xs (by simpa [spansLe] using h)
+    exact ⟨.tuple xs', by simp [finalize, hx]⟩
+  | .obj c fs sp, h => by
+    simp only [spansLe, Bool.and_eq_true] at h
+    obtain ⟨fs', hf⟩ := finalizeFields_of_spansLe len fs h.2
+    cases sp with
+    | none => exact ⟨.obj c fs' none, by simp [finalize, hf]⟩
+    | some se =>
+      obtain ⟨s, e⟩ := se
+      have hse := h.1
+      simp only [Bool.and_eq_true, decide_eq_true_eq] at hse
+      have : finalizeSpan len s e = some (s, max (e - 1) s) := by
+        unfold finalizeSpan
+        have : s ≤ len ∧ max (e - 1) s ≤ len := ⟨hse.1, by omega⟩
+        simp [this]
+      exact ⟨.obj c fs' (some (s, max (e - 1) s)), by simp [finalize, hf, this]⟩
+theorem finalizeList_of_spansLe (len : Nat) : ∀ xs : List Val, spansLeList len xs = true →
+    ∃ xs', finalizeList len xs = some xs'
+  | [], _ => ⟨[], rfl⟩
+  | x :: xs, h => by
+    simp only [spansLeList, Bool.and_eq_true] at h
+    obtain ⟨x', hx⟩ := finalize_of_spansLe len x h.1
+    obtain ⟨xs', hxs⟩ := finalizeList_of_spansLe len xs h.2
+    exact ⟨x' :: xs', by simp [finalizeList, hx, hxs]⟩
+theorem finalizeFields_of_spansLe (len : Nat) : ∀ fs : List (String × Val), spansLeFields len fs = true →
+    ∃ fs', finalizeFields len fs = some fs'
+  | [], _ => ⟨[], rfl⟩
+  | f :: fs, h => by
+    simp only [spansLeFields, Bool.and_eq_true] at h
+    obtain ⟨v', hv⟩ := finalize_of_spansLe len f.2 h.1
+    obtain ⟨fs', hfs⟩ := finalizeFields_of_spansLe len fs h.2
+    exact ⟨(f.1, v') :: fs', by simp [finalizeFields, hv, hfs]⟩
+end
+
+/-- **C08.**  When the entry expression matches from `pos` up to `p'` with value `v`, `parse`
+    returns the (finalised) value if `fullparse` is false or the match reaches the end of the input,
+    and raises `PartialParseError(value, p')` otherwise; no `IndexError` escapes.  Holds for every
+    program (lookahead and `Backtrack` included), every input, every start offset inside it. -/
+theorem C08_match_outcome {F : FlagTable} (hF : LocallySound F) (P : Program) (inp : List Nat)
+    (hm : MatcherBounded P) (fuel : Nat) (e : Expr) (pos : Nat) (hpos : pos ≤ inp.length)
+    (fullparse : Bool) (v : Val) (p' : Nat) (h : peg P inp fuel e pos = some (.ok v p')) :
+    ∃ r v', gen F P inp fuel e pos = some r ∧ finalize inp.length v = some v' ∧
+      parseApi inp.length fullparse r =
+        (if fullparse && decide (p' < inp.length) then .partialParse v' p' else .value v') := by
+  obtain ⟨r, hg, h1, h2, h3⟩ := gen_refines hF P inp fuel e pos _ h
+  obtain ⟨v', hv'⟩ := finalize_of_spansLe inp.length v (peg_bounded P inp hm fuel e pos v p' h hpos).2
+  exact ⟨r, v', hg, hv', by simp [parseApi, h1, h2, h3, hv']⟩
+
+/-- **C08.**  When the entry expression does not match, `parse` raises `ParseError`, at an index
+    inside the input (and not before `pos` when the grammar does not use `Backtrack`). -/
+theorem C08_failure_outcome {F : FlagTable} (hF : LocallySound F) (P : Program) (inp : List Nat)
+    (hm : MatcherBounded P) (hP : RulesNoBt P) (fuel : Nat) (e : Expr) (pos : Nat)
+    (hpos : pos ≤ inp.length) (fullparse : Bool) (h : peg P inp fuel e pos = some .fail) :
+    ∃ r, gen F P inp fuel e pos = some r ∧ parseApi inp.length fullparse r = .parseError r.pos ∧
+      r.pos ≤ inp.length ∧ (NoBt e = true → pos ≤ r.pos) := by
+  obtain ⟨r, hg, hst⟩ := gen_refines hF P inp fuel e pos _ h
+  have hst' : r.status = false := hst
+  have := gen_pos (F := F) P inp hm hP fuel e pos r hg
+  exact ⟨r, hg, by simp [parseApi, hst'], this.1 hpos, this.2⟩
+
+-- non-vacuity: `A = "a" >> "b"` on `abx` with fullparse → partial at 2; on `aa` → error at 1
+example : peg exP [97, 98, 120] 4 (.ref 0) 0 = some (.ok (.str [98]) 2) := by rfl
+example : parseApi 3 true ⟨true, .str [98], 2⟩ = .partialParse (.str [98]) 2 := by rfl
+
+/-! ## C09 – index range of reported positions (see Tie/Excerpt.lean for the excerpt theorems) -/
+
+/-- every position the code model reports - on failure or on success - lies inside the input,
+    and without `Backtrack` never before the start offset -/
+theorem C09_index_range {F : FlagTable} (P : Program) (inp : List Nat) (hm : MatcherBounded P)
+    (hP : RulesNoBt P) (fuel : Nat) (e : Expr) (pos : Nat) (r : Reg)
+    (h : gen F P inp fuel e pos = some r) :
+    (pos ≤ inp.length → r.pos ≤ inp.length) ∧ (NoBt e = true → pos ≤ r.pos) :=
+  gen_pos P inp hm hP fuel e pos r h
+
+/-! ## C10 – spans of class instances -/
+
+/-- a class instance carries exactly the raw span `(position where its match began, position
+    where it ended)`; finalised, its end is the last consumed offset -/
+theorem C10_span_exact (P : Program) (inp : List Nat) (fuel : Nat) (name : String) (xs : List Expr)
+    (keep : List (Option String)) (p p' : Nat) (v : Val)
+    (h : peg P inp (fuel + 1) (.cls name xs keep) p = some (.ok v p')) :
+    ∃ fs, v = .obj name fs (some (p, p')) := by
+  simp only [peg] at h
+  have : ∀ (xs : List Expr) (ks : List (Option String)) (q : Nat) (acc : List (String × Val)),
+      pegCls (peg P inp fuel) name p xs ks q acc = some (.ok v p') → ∃ fs, v = .obj name fs (some (p, p')) := by
+    intro xs
+    induction xs with
+    | nil => intro ks q acc h; simp [pegCls] at h; obtain ⟨h1, h2⟩ := h; subst h1 h2; exact ⟨_, rfl⟩
+    | cons e es ih =>
+      intro ks q acc h
+      unfold pegCls at h
+      split at h
+      · simp at h
+      · simp at h
+      · exact ih _ _ _ h
+  exact this xs keep p [] h
+
+theorem C10_finalized_end (len s e : Nat) (hs : s < e) (he : e ≤ len) :
+    finalizeSpan len s e = some (s, e - 1) := by
+  unfold finalizeSpan
+  have h1 : max (e - 1) s = e - 1 := by omega
+  have h2 : s ≤ len ∧ e - 1 ≤ len := by omega
+  simp [h1, h2]
+
+/-- spans of nested instances lie inside the span of the value that contains them (no
+    value-producing lookahead, no `Backtrack`) -/
+theorem C10_nested (P : Program) (inp : List Nat) (hm : MatcherBounded P) (hP : RulesNoLook P)
+    (fuel : Nat) (e : Expr) (p p' : Nat) (v : Val) (h : peg P inp fuel e p = some (.ok v p'))
+    (hnl : NoLook e = true) : p ≤ p' ∧ spansIn p p' v = true :=
+  peg_spans P inp hm hP fuel e p v p' h hnl
+
+/-- values of successive sequence members occupy successive, non-overlapping intervals, in input
+    order -/
+theorem C10_ordered_seq (P : Program) (inp : List Nat) (hm : MatcherBounded P) (hP : RulesNoLook P)
+    (fuel : Nat) (xs : List Expr) (p p' : Nat) (v : Val)
+    (h : peg P inp (fuel + 1) (.seq xs) p = some (.ok v p')) (hnl : NoLookList xs = true) :
+    ∃ vs, v = .list vs ∧ Chain p p' vs := by
+  simp only [peg] at h
+  exact pegSeq_spans (peg_spans P inp hm hP fuel) p xs p [] v p' h hnl (Nat.le_refl _)
+
+/-- … and so do successive elements of a repetition -/
+theorem C10_ordered_list (P : Program) (inp : List Nat) (hm : MatcherBounded P) (hP : RulesNoLook P)
+    (fuel : Nat) (x : Expr) (min : Nat) (extra : Option Nat) (p p' : Nat) (v : Val)
+    (h : peg P inp (fuel + 1) (.list x min extra) p = some (.ok v p')) (hnl : NoLook x = true) :
+    ∃ vs, v = .list vs ∧ Chain p p' vs := by
+  simp only [peg, pegList] at h
+  split at h
+  · simp at h; obtain ⟨h1, h2⟩ := h; subst h1 h2; exact ⟨[], rfl, Nat.le_refl _⟩
+  · split at h
+    · simp at h
+    · rename_i acc q hloop
+      have hc := pegListLoop_spans (peg_spans P inp hm hP fuel) x _ hnl p _ _ _ _ _ hloop (Nat.le_refl _)
+      split at h
+      · simp at h; obtain ⟨h1, h2⟩ := h; subst h1 h2; exact ⟨_, rfl, hc⟩
+      · simp at h
+
+-- non-vacuity: a class with two members on `ab`
+example : peg exP [97, 98] 4 (.cls "C" [.str [97] false, .str [98] false] [some "x", some "y"]) 0
+    = some (.ok (.obj "C" [("x", .str [97]), ("y", .str [98])] (some (0, 2))) 2) := by rfl
 
 end Sourcer
